@@ -689,6 +689,12 @@ pub fn run_type<T: Cat + DecodeAll + DecodeLimit>(ctx: &mut Ctx, stream: &str, n
 				if unl.starts_with("ok") && need.is_none() {
 					ctx.oracle_fail("C11", format!("{}: unlimited decode succeeds but no limit up to 12 does: {}", name, hex_or_dash(&bs)));
 				}
+				// the least sufficient limit of an untampered encoding is the value's container nesting
+				if i % 3 == 0 {
+					if let Some(n) = need {
+						ctx.emit("nesting", name, &format!("nesting {} {}", T::ty(bs.len() + 1), val_string(&v, false)), &n.to_string());
+					}
+				}
 			}
 		},
 		"stacks" => {
@@ -1076,6 +1082,10 @@ pub fn run_mem_type<T: Cat + DecodeWithMemTracking>(ctx: &mut Ctx, name: &'stati
 		let (unl, _) = dec_answer::<T>(&bs);
 		let (top, u) = mem_run::<T>(&bs, usize::MAX);
 		let ty = T::ty(bs.len() + 1);
+		// the tracked usage of an untampered encoding is the value's heap payload
+		if i % 3 != 1 && top.starts_with("ok") {
+			ctx.emit("payload", name, &format!("payload {} {}", ty, val_string(&v, false)), &u.to_string());
+		}
 		ctx.emit("mem", name, &format!("mem {} {} {}", usize::MAX, ty, hex_or_dash(&bs)), &top);
 		// oracle (C12): a non-binding limit is transparent
 		if unl.starts_with("ok") && !top.starts_with(&unl) {
